@@ -76,6 +76,16 @@ def build_history(rnd):
         st = do({'k': 'surface', 'a': a}); checks.append((len(ops) - 1, 'surface', a))
         for _ in range(2):
             do({'k': 'trav', 'a': rnd.randrange(na), 'n': rnd.randrange(n)}); checks.append((len(ops) - 1, 'trav', None))
+    if rnd.random() < 0.35:
+        # the same questions asked of a deep copy (the copies of the attackers and nodes follow the originals in the
+        # harness' object tables): what a copy answers must not depend on bookkeeping that only the original went through
+        do({'k': 'deepcopy'})
+        for a in range(na):
+            do({'k': 'surface', 'a': na + a})
+            for _ in range(3): do({'k': 'trav', 'a': na + a, 'n': n + rnd.randrange(n)})
+        do({'k': 'defense_surface'}); do({'k': 'enabled_defenses'})
+        a = na + rnd.randrange(na); r = n + rnd.randrange(n)
+        do({'k': 'compromise', 'a': a, 'n': r, 'side': 'attacker'}); do({'k': 'surface', 'a': a})
     return ops
 
 def oracle(ops):
